@@ -17,6 +17,8 @@ set_option linter.unusedVariables false
 namespace IoosQc.NpFx
 open IoosQc IoosQc.NpSrc
 
+def pfDemo' (s : String) : Option Rat := if s == "2.5" then some (5 / 2) else none
+
 def opTok : Op2 → Option Tok
   | .add => some (.op .add)
   | .sub => some (.op .sub)
@@ -204,6 +206,19 @@ theorem C20_src_symbols (pf : String → Option Rat) (t : Tok) (s : String) (h :
   | uminus => simp [symbolOf] at h; subst h; rfl
   | op o => cases o <;> simp [symbolOf] at h <;> subst h <;> rfl
   | stat n => cases n <;> simp [symbolOf] at h <;> subst h <;> rfl
+
+/-- a string that is none of the reserved words, does not begin with a letter and that `float` accepts stands for that number;
+    one that begins with a letter (and is not reserved) or that `float` rejects stands for an "invalid identifier": evaluation raises -/
+theorem C20_src_numeral (pf : String → Option Rat) (s : String) (q : Rat)
+    (h0 : (s == "unary -") = false) (h1 : strIn s "+-*/^" = false)
+    (h2 : (s == "PI") = false ∧ (s == "E") = false ∧ (s == "mean") = false ∧ (s == "min") = false ∧ (s == "max") = false ∧ (s == "std") = false)
+    (h3 : fnNames.contains s = false) (h4 : alpha0 s = .ok false) (h5 : pf s = some q) :
+    classify pf (.str s) = some (.num q) := by
+  obtain ⟨a, b, c, d, e, f⟩ := h2
+  have h3' : ¬ s ∈ fnNames := by simpa using h3
+  simp [classify, h0, h1, a, b, c, d, e, f, h3', h4, h5]
+
+example : classify pfDemo' (.str "2.5") = some (.num (5 / 2)) := by decide +kernel
 
 /-! non-vacuity: a stack of strings with junk from a failed parse below `mean + 3 * std` -/
 def pfDemo (s : String) : Option Rat := if s == "3" then some 3 else none
